@@ -191,8 +191,50 @@ func c04Election(p *chk.Prog, r *chk.Report) {
 	}
 	good := true
 	for _, o := range sc.FreeVars() {
-		if !allowed[o] {
+		if allowed[o] {
+			continue
+		}
+		// a table of precomputed keys (filled once per candidate) that the key expression was seen through: what
+		// matters is what the stored expression reads, which the expanded key below shows
+		seenThrough := false
+		ast.Inspect(sc.Less.Body, func(n ast.Node) bool {
+			if ix, ok := n.(*ast.IndexExpr); ok && lf.ObjOf(ast.Unparen(ix.X)) == o {
+				if lf.MemoValue(ix) != nil {
+					seenThrough = true
+				} else {
+					good = false
+				}
+				return false
+			}
+			if id, ok := n.(*ast.Ident); ok && lf.ObjOf(id) == o {
+				good = false // any other use of the variable
+			}
+			return true
+		})
+		if !seenThrough {
 			good = false
+		}
+	}
+	if keyOK {
+		// the expanded keys read only the list, the index parameters and the address part
+		rets := lg.Returns()
+		if b := lf.MatchNew("bytes.Compare(A[:], B[:]) < 0", retResults(rets[0])[0]); b != nil {
+			for _, k := range []ast.Expr{lf.Expand(b["A"]), lf.Expand(b["B"])} {
+				ast.Inspect(k, func(n ast.Node) bool {
+					id, ok := n.(*ast.Ident)
+					if !ok {
+						return true
+					}
+					v, isVar := lf.ObjOf(id).(*types.Var)
+					if !isVar || v.IsField() || v.Pkg() == nil || v.Parent() == v.Pkg().Scope() {
+						return true
+					}
+					if !allowed[v] && types.Object(v) != sc.I && types.Object(v) != sc.J {
+						good = false
+					}
+					return true
+				})
+			}
 		}
 	}
 	x.Check("ShouldAnnounce:key-free-variables", sc.Less.Pos(), good && keyOK, "", "the comparator reads something besides the candidate list and the address string (e.g. the local node): speakers would disagree")
@@ -243,24 +285,53 @@ func c04Eligible(p *chk.Prog, r *chk.Report) {
 			key := s.Node.(*ast.AssignStmt).Lhs[0].(*ast.IndexExpr).Index
 			same := func(e ast.Expr) bool { return f.SameExpr(e, key) }
 			x.Check("speakersForPool:network-available", s.Pos(), g.Dominated(s, g.GPat(false, "k8snodes.IsNetworkUnavailable(N[S])", chk.H("N", nodes), chk.H("S", same))), "", "a network-unavailable node can become a candidate")
-			x.Check("speakersForPool:not-excluded", s.Pos(), g.Dominated(s, g.GPat(false, "!RECV.ignoreExcludeLB && k8snodes.IsNodeExcludedFromBalancers(N[S])", chk.H("N", nodes), chk.H("S", same))), "", "a node excluded from external load balancers can become a candidate although exclusion is not ignored")
+			x.Check("speakersForPool:not-excluded", s.Pos(), g.Dominated(s, g.GPat(false, "!IGN && k8snodes.IsNodeExcludedFromBalancers(N[S])", chk.H("IGN", recvFieldOrPassed(p, f, "layer2Controller", "ignoreExcludeLB")), chk.H("N", nodes), chk.H("S", same))), "", "a node excluded from external load balancers can become a candidate although exclusion is not ignored")
 			x.Check("speakersForPool:pool-selects-node", s.Pos(), g.Dominated(s, g.GPat(true, "poolMatchesNodeL2(P, S)", chk.H("P", pool), chk.H("S", same))), "", "a node that no L2 advertisement of the pool selects can become a candidate")
 			// s ranges over the eligible nodes
 			rs, _ := f.LoopOf(s.Node).(*ast.RangeStmt)
 			okSrc := rs != nil && rangeKey(f, rs)(key)
 			if okSrc {
-				src := f.ObjOf(rs.X)
-				okSrc = src != nil
-				for _, a := range assignsTo(f, src) {
-					as := a.(*ast.AssignStmt)
-					sites := g.Find(func(n ast.Node) bool { return n == ast.Node(as) })
-					switch {
-					case f.MatchWith("maps.Keys(SL.Nodes)", as.Rhs[0], chk.H("SL", definedBy(g, "RECV.sList.UsableSpeakers()"))) != nil:
-					case f.MatchWith("maps.Keys(N)", as.Rhs[0], chk.H("N", nodes)) != nil && len(sites) == 1 &&
-						g.Dominated(sites[0], g.GPat(true, "SL.Disabled", chk.H("SL", definedBy(g, "RECV.sList.UsableSpeakers()")))):
-					default:
-						okSrc = false
+				// the candidate source is built here, or handed in by the (only) callers: then it is built there, from
+				// the node map that is passed along
+				fromMembership := func(fn *chk.Fn, src types.Object, nodesIn func(ast.Expr) bool) bool {
+					if src == nil {
+						return false
 					}
+					fg := fn.Graph()
+					as2 := assignsTo(fn, src)
+					if len(as2) == 0 {
+						return false
+					}
+					for _, a := range as2 {
+						as, isAs := a.(*ast.AssignStmt)
+						if !isAs || len(as.Rhs) != 1 {
+							return false
+						}
+						sites := fg.Find(func(n ast.Node) bool { return n == ast.Node(as) })
+						switch {
+						case fn.MatchWith("maps.Keys(SL.Nodes)", as.Rhs[0], chk.H("SL", definedBy(fg, "RECV.sList.UsableSpeakers()"))) != nil:
+						case fn.MatchWith("maps.Keys(N)", as.Rhs[0], chk.H("N", nodesIn)) != nil && len(sites) == 1 &&
+							fg.Dominated(sites[0], fg.GPat(true, "SL.Disabled", chk.H("SL", definedBy(fg, "RECV.sList.UsableSpeakers()")))):
+						default:
+							return false
+						}
+					}
+					return true
+				}
+				if orig := paramOrigins(p, f, rs.X); len(orig) > 0 {
+					for _, o := range orig {
+						nodesArgs := paramOrigins(p, f, paramIdent(f, "nodes", 3))
+						var nodesArg ast.Expr
+						for _, na := range nodesArgs {
+							if na.Call == o.Call {
+								nodesArg = na.Arg
+							}
+						}
+						ofn := o.Fn
+						okSrc = okSrc && nodesArg != nil && fromMembership(ofn, ofn.ObjOf(o.Arg), func(e ast.Expr) bool { return ofn.SameExpr(e, nodesArg) })
+					}
+				} else {
+					okSrc = fromMembership(f, f.ObjOf(rs.X), nodes)
 				}
 			}
 			x.Check("speakersForPool:candidates-from-membership", s.Pos(), okSrc, "", "candidates are not drawn from the usable speakers (or from all known nodes only when membership tracking is disabled)")
@@ -273,7 +344,7 @@ func c04Eligible(p *chk.Prog, r *chk.Report) {
 	ne := need(x, p, "speaker", "", "nodesWithEndpoint")
 	if ne != nil {
 		g := ne.Graph()
-		sets := g.Find(ne.IsAssignPat("U[N]", "true"))
+		sets := g.Find(isSetInsert(ne))
 		x.Check("nodesWithEndpoint:usable-site", ne.Pos(), len(sets) == 1, "", "expected one `usable[node] = true`")
 		for _, s := range sets {
 			key := s.Node.(*ast.AssignStmt).Lhs[0].(*ast.IndexExpr).Index
@@ -346,7 +417,7 @@ func c04Winner(p *chk.Prog, r *chk.Report) {
 	}
 	x.Check("ShouldAnnounce:announce-return", f.Pos(), n == 1, "", "expected exactly one `return \"\"`")
 	// candidate sources
-	sm := definedBy(g, "RECV.speakersForPool(_, _, P, N)", chk.H("P", pool), chk.H("N", isParam(f, "nodes")))
+	sm := definedBy(g, "RECV.speakersForPool(_, _, P, N, ETC)", chk.H("P", pool), chk.H("N", isParam(f, "nodes")))
 	base := g.Find(func(nd ast.Node) bool {
 		as, ok := nd.(*ast.AssignStmt)
 		return ok && len(as.Rhs) == 1 && f.MatchWith("nodesWithActiveSpeakers(M)", as.Rhs[0], chk.H("M", sm)) != nil
